@@ -438,6 +438,97 @@ def _caller_hack(ctx) -> None:
                    f"call super().{name} (otherwise astimezone's internal addition is routed through add())", m.loc(n))
 
 
+def _safe_timezone_tabulate(ctx) -> bool | None:
+    """ZONE.tabulated: `_safe_timezone` run by the checker's interpreter on one argument of every kind - a pendulum zone (handed back),
+    None / 'local' (the local zone), hours as int and float of both signs (int(h * 3600) seconds), a name, zoneinfo objects (resolved by
+    .key - also ZoneInfo('Etc/UTC') and 'Zulu', whose tzname() is 'UTC'), a pytz-like object (resolved by .zone, whatever its tzname()),
+    datetime.timezone.utc (the UTC singleton), fixed-offset tzinfo objects without a name (their utcoffset(dt) in whole seconds; None
+    counts as 0).  The calls to timezone() / local_timezone() are recorded, not run."""
+    import datetime as _dt
+    import zoneinfo
+    from ..rules import minieval
+    from ..rules.minieval import ClassStub, Stub
+    im = pmod("__init__")
+    fn = im.func("_safe_timezone")
+    UTC = Stub(_name="UTC-singleton")
+    pz = Stub(_pend="Timezone", name="Europe/Paris")
+    fz = Stub(_pend="FixedTimezone", name="+02:00")
+
+    class Pytz(_dt.tzinfo):
+        zone = "America/New_York"
+
+        def localize(self, d):
+            return d
+
+        def utcoffset(self, d):
+            return _dt.timedelta(hours=-4, minutes=-56)
+
+        def tzname(self, d):
+            return "LMT"
+
+        def dst(self, d):
+            return None
+
+    class PytzUTC(Pytz):
+        zone = "Etc/UCT"
+
+        def tzname(self, d):
+            return "UTC"
+
+    class NoOffset(_dt.tzinfo):
+        def utcoffset(self, d):
+            return None
+
+        def tzname(self, d):
+            return None
+
+        def dst(self, d):
+            return None
+    cases = [("a pendulum Timezone", pz, ("same", pz)), ("a pendulum FixedTimezone", fz, ("same", fz)), ("None", None, ("local",)), ("'local'", "local", ("local",)),
+             ("2 (hours)", 2, ("timezone", 7200)), ("-3 (hours)", -3, ("timezone", -10800)), ("5.5 (hours)", 5.5, ("timezone", 19800)), ("-9.5 (hours)", -9.5, ("timezone", -34200)), ("0", 0, ("timezone", 0)),
+             ("'Europe/Paris'", "Europe/Paris", ("timezone", "Europe/Paris")), ("'UTC'", "UTC", ("timezone", "UTC")),
+             ("a pytz-like zone (America/New_York, tzname 'LMT')", Pytz(), ("timezone", "America/New_York")), ("a pytz-like zone whose tzname() is 'UTC'", PytzUTC(), ("timezone", "Etc/UCT")),
+             ("datetime.timezone.utc", _dt.timezone.utc, ("utc",)), ("timezone(+05:30)", _dt.timezone(_dt.timedelta(hours=5, minutes=30)), ("timezone", 19800)),
+             ("timezone(-00:30, 'X')", _dt.timezone(_dt.timedelta(minutes=-30), "X"), ("timezone", -1800)), ("a tzinfo whose utcoffset() is None", NoOffset(), ("timezone", 0))]
+    try:
+        for key in ("Europe/Paris", "Etc/UTC", "Zulu", "UTC"):
+            cases.append((f"ZoneInfo({key!r})", zoneinfo.ZoneInfo(key), ("timezone", key)))
+    except Exception:       # noqa: BLE001
+        pass
+    bad, n = [], 0
+    try:
+        funcs = {st.name: st for st in im.top() if isinstance(st, ast.FunctionDef) and st.name != "timezone"}
+        glob = {**minieval.module_consts(im), "Timezone": ClassStub(_new=None, _isa=lambda v: getattr(v, "_pend", None) == "Timezone"),
+                "FixedTimezone": ClassStub(_new=None, _isa=lambda v: getattr(v, "_pend", None) == "FixedTimezone"),
+                "_datetime": Stub(tzinfo=_dt.tzinfo, timedelta=_dt.timedelta, datetime=_dt.datetime), "UTC": UTC, "Union": None, "cast": lambda t_, v: v,
+                "local_timezone": lambda: ("local",), "timezone": lambda name: ("timezone", name)}
+        minieval.module_tables(im, glob, funcs)
+        for label, arg, want in cases:
+            n += 1
+            try:
+                got = minieval.call(fn, [arg], {}, {**funcs, "$globals": glob})
+            except minieval.Raised as e:
+                bad.append(f"{label}: raises {e.exc_name}")
+                continue
+            if want[0] == "same":
+                ok = got is want[1]
+            elif want[0] == "utc":
+                ok = got is UTC or got == ("timezone", "UTC") or got == ("timezone", 0) and False
+            else:
+                ok = got == want and (len(want) < 2 or type(got[1]) is type(want[1]))
+            if not ok:
+                shown = "the UTC singleton" if got is UTC else "the argument itself" if got is arg else repr(got)
+                bad.append(f"{label} -> {shown} (expected {'the argument itself' if want[0] == 'same' else 'the UTC zone' if want[0] == 'utc' else want})")
+    except (core.Unsupported, KeyError, TypeError, AttributeError, IndexError, RecursionError, ValueError) as e:
+        ctx.unverified("ZONE.tabulated", "_safe_timezone", f"outside the checker's interpreter: {type(e).__name__}: {e}", im.loc(fn))
+        return None
+    ctx.ob("ZONE.tabulated", "_safe_timezone", not bad, f"{n} kinds of argument: " + (f"wrong: {bad[:3]}" if bad else
+           "each resolved as the property needs (pendulum zones unchanged, hours x 3600, names by .key / .zone before any shortcut, nameless tzinfo by its offset)"), im.loc(fn))
+    if not bad:
+        ctx.established(("ZONE.resolve",), "_safe_timezone", "ZONE.tabulated")
+    return not bad
+
+
 def _zone_resolution(ctx) -> None:
     """'reports the requested timezone': name/offset -> zone object resolution, incl. the interned fixed offsets."""
     im, tm = pmod("__init__"), pmod("tz")
@@ -571,6 +662,7 @@ def run(ctx) -> None:
     ctx.step(_int_timestamp, ctx)
     ctx.step(_aware_instant, ctx)
     ctx.step(_caller_hack, ctx)
+    ctx.step(_safe_timezone_tabulate, ctx)
     ctx.step(_zone_resolution, ctx)
     from . import C11
     ctx.step(C11.native_tabulate, ctx, "ASTIMEZONE.tabulated", ("DateTime.astimezone",))
